@@ -1,2 +1,28 @@
-(* further commands are added here as more numeric models are extracted *)
-let dispatch (cmd : string) : string = failwith ("unknown command " ^ cmd)
+(* further numeric-model commands: ledgers (C05/C06) *)
+open Num_model
+let rec pos_to_float = function XH -> 1.0 | XO p -> 2.0 *. pos_to_float p | XI p -> 2.0 *. pos_to_float p +. 1.0
+let z_to_float = function Z0 -> 0.0 | Zpos p -> pos_to_float p | Zneg p -> -. (pos_to_float p)
+let fops : float numOps = {
+  lit = (fun n d -> z_to_float n /. pos_to_float d);
+  nadd = ( +. ); nsub = ( -. ); nmul = ( *. ); ndiv = ( /. ); nneg = (fun x -> -. x);
+  nexp = exp; nlog = log; nlog1p = log1p; nsqrt = sqrt;
+  nltb = (fun x y -> x < y); nleb = (fun x y -> x <= y); neqb = (fun x y -> x = y);
+  nmin = (fun x y -> if x < y then x else y); nmax = (fun x y -> if x > y then x else y) }
+let rec nat_of_int n = if n <= 0 then O else S (nat_of_int (n - 1))
+let toks : string list ref = ref []
+let next () = match !toks with t :: r -> toks := r; t | [] -> failwith "eol"
+let rf () = float_of_string (next ())
+let ri () = int_of_string (next ())
+let evs l = String.concat " " (List.concat_map (fun e -> match e with
+  | Gauss (s, d) -> [Printf.sprintf "%h" 0.0; Printf.sprintf "%h" s; Printf.sprintf "%h" d]
+  | Select (e, f) -> [Printf.sprintf "%h" 1.0; Printf.sprintf "%h" e; Printf.sprintf "%h" f]) l)
+let dispatch (cmd : string) (rest : string list) : string =
+  toks := rest;
+  match cmd with
+  | "mst_events" -> let rho = rf () in let k1 = ri () in let r = ri () in let k2 = ri () in evs (mst_events fops rho (nat_of_int k1) (nat_of_int r) (nat_of_int k2))
+  | "mwem_events" -> let rho = rf () in let a = rf () in let t = ri () in let b = ri () = 1 in let f = ri () = 1 in evs (mwem_events fops rho a (nat_of_int t) b f)
+  | "adagrid_events" -> let r1 = rf () in let r2 = rf () in let r3 = rf () in let n1 = ri () in let r = ri () in let n3 = ri () in
+    evs (adagrid_events fops r1 r2 r3 (nat_of_int n1) (nat_of_int r) (nat_of_int n3))
+  | "aim_events" -> let rho = rf () in let t = ri () in let d = ri () in let n = ri () in
+    let dec = List.init n (fun _ -> ri () = 1) in evs (aim_events fops rho (nat_of_int t) (nat_of_int d) dec)
+  | _ -> failwith ("unknown command " ^ cmd)
